@@ -39,7 +39,7 @@ from ..refs import reply as R
 
 PROPERTY = "C19"
 READY = True
-LEVEL = "exploration"
+LEVEL = "fault_enumeration"
 TECHNIQUE = ("runtime monitoring: complete enumeration of causal stimulus permutations driving the real launch() on a "
              "fake reactor/process/clock + gated reference Tor; Deferred, signal and filesystem monitors judged by an "
              "independent event-order oracle after every stimulus")
@@ -389,6 +389,7 @@ class Run(object):
         self.data_dir = None
         self.already_called_seen = 0
         self.signals_before = 0
+        self.caller_dir_seen = False
         self.launch_fired_before_tmo = False
 
     # -- plumbing ---------------------------------------------------------------
@@ -693,8 +694,11 @@ class Run(object):
         if self.caller_dir is not None:
             rec.count("caller_dir_checks")
             if not os.path.isdir(self.caller_dir):
-                self.V("caller-dir-removed", "caller-dir/" + phase, {"dir": "caller"})
+                # a directory that launch() was to create is only demanded once it has been there
+                if self.case["dd"] == "caller" or self.caller_dir_seen:
+                    self.V("caller-dir-removed", "caller-dir/" + phase, {"dir": self.case["dd"]})
             else:
+                self.caller_dir_seen = True
                 want = ["control_auth_cookie", "state"] + (["keep.me"] if self.case["dd"] == "caller" else [])
                 missing = [n for n in want if not os.path.exists(os.path.join(self.caller_dir, n))]
                 if missing and self.proc is not None:
